@@ -4,7 +4,7 @@ import json
 import os
 ROOT = os.path.dirname(os.path.dirname(os.path.abspath(__file__)))
 rows = []
-for sid in sorted(os.listdir(os.path.join(ROOT, 'seeded'))):
+for sid in sorted(d for d in os.listdir(os.path.join(ROOT, 'seeded')) if os.path.isdir(os.path.join(ROOT, 'seeded', d))):
     m = json.load(open(os.path.join(ROOT, 'seeded', sid, 'meta.json')))
     c = m.get('confirmation') or {}
     fe = m.get('first_evaluation') or {}
